@@ -629,6 +629,10 @@ type loopSpec struct {
 func (x *Exec) loop(ls *loopSpec, st *State) *Flow {
 	fx := x.fx
 	out := &Flow{}
+	entrySt := st.clone()
+	entryEv := fx.clauseEv(entrySt, ls.bodyPos, nil)
+	fx.loopEntry = append(fx.loopEntry, entryEv)
+	defer func() { fx.loopEntry = fx.loopEntry[:len(fx.loopEntry)-1] }()
 	lname := fmt.Sprintf("loop%d", ls.ord)
 	var invs []*Clause
 	var dec *Clause
@@ -709,6 +713,18 @@ func (x *Exec) loop(ls *loopSpec, st *State) *Flow {
 		suffix := ""
 		if len(edges) > 1 {
 			suffix = fmt.Sprintf("@edge%d", ei+1)
+		}
+		if ls.lc != nil {
+			for hi, h := range ls.lc.Hints {
+				lbl := h.Label
+				if lbl == "" {
+					lbl = fmt.Sprintf("hint%d", hi+1)
+				}
+				ce := fx.clauseEv(back, ls.bodyPos, nil)
+				t := ce.boolOf(ce.ev(h.Expr), h.Expr)
+				fx.oblige("hint", lname+".hint."+lbl+suffix, ls.node.Pos(), back.pc, t, "proof hint: "+h.Text)
+				fx.assume(back.pc, t)
+			}
 		}
 		for i, inv := range invs {
 			lbl := inv.Label
@@ -881,6 +897,9 @@ func (fx *FuncCtx) clauseEv(st *State, pos token.Pos, results []Val) *Ev {
 		return nil, false
 	}
 	ev := &Ev{fx: fx, st: st, contract: true, lookup: lookup, pkg: fx.pkg.Types}
+	if len(fx.loopEntry) > 0 {
+		ev.loopEntryEv = fx.loopEntry[len(fx.loopEntry)-1]
+	}
 	if fx.con != nil {
 		ev.modKeys = strings.Fields(fx.con.Options["modifies"])
 	}
